@@ -529,16 +529,32 @@ func ruleDupKey(rule string) RuleFn {
 
 // onlyReachableErr: from edge e every reachable return is an error return.
 func onlyReachableErr(fn *ssa.Function, e an.Edge) bool {
-	rets := returnsFrom(fn, e.From.Succs[e.Succ].Instrs[0])
+	first := e.From.Succs[e.Succ].Instrs[0]
+	rets := returnsFrom(fn, first)
 	if len(rets) == 0 {
 		return false
 	}
+	allErr := true
 	for _, r := range rets {
 		if !isErrorExit(r) {
-			return false
+			allErr = false
 		}
 	}
-	return true
+	if allErr {
+		return true
+	}
+	// flow-insensitively a success return is reachable; an unwrapped helper leaves `tmp = err; break` followed by
+	// `if tmp != nil { return tmp }` behind - the threaded search knows which way that test goes on this path
+	isSuccess := func(i ssa.Instruction) bool {
+		r, ok := i.(*ssa.Return)
+		return ok && !isErrorExit(r)
+	}
+	if isSuccess(first) {
+		return false
+	}
+	// enter the target block across the edge itself, so that the first block is threaded too
+	hit, _ := an.PathTo(fn, e.From.Instrs[len(e.From.Instrs)-1], isSuccess, an.NewGates().AddEdges(an.Edge{From: e.From, Succ: 1 - e.Succ}))
+	return hit == nil
 }
 
 // ruleVisitExtract (X-visit-extract).
